@@ -121,7 +121,9 @@ func VP_C01_cnf_slice() {
 		zzvp.Assert(zzvp.Not(spec), "parse-time Unsat but formula satisfiable")
 		zzvp.Reach("parse-unsat")
 	}
+	vpAMO(pb)
 	s := New(pb)
+	vpCPSetup(s, n, func(a int) bool { return vpCNFHolds(orig, a) })
 	if zzvp.Param("cert", 0) == 1 && zzvp.Choose("cert", 2) == 1 {
 		s.Certified = true
 		s.CertChan = make(chan string, 256)
